@@ -450,8 +450,16 @@ class Parser:
                     vals.append(self.expr())
                 self.expect('op', ')')
                 e = ('in', e, vals)
-            elif t == ('kw', 'between'):
-                raise ShimGap('SQL: BETWEEN')
+            elif t == ('kw', 'between') or (t == ('kw', 'not') and self.peek(1) == ('kw', 'between')):
+                neg = t[1] == 'not'
+                self.next()
+                if neg:
+                    self.next()
+                lo = self.add_expr()
+                self.expect_kw('and')
+                hi = self.add_expr()
+                rng = ('and', ('cmp', '>=', e, lo), ('cmp', '<=', e, hi))
+                e = ('not', rng) if neg else rng
             else:
                 return e
 
